@@ -244,6 +244,15 @@ func (d *Decoder) decodeNALUs(pkt *rtp.Packet) ([][]byte, error) {
 func (d *Decoder) Decode(pkt *rtp.Packet) ([][]byte, error) {
 	nalus, err := d.decodeNALUs(pkt)
 	if err != nil {
+		// the packet belongs to a new access unit, but does not complete any NALU.
+		// return the previous access unit now, since its marker has been lost.
+		if errors.Is(err, ErrMorePacketsNeeded) &&
+			d.frameBuffer != nil && pkt.Timestamp != d.frameBufferTimestamp {
+			ret := d.frameBuffer
+			d.resetFrameBuffer()
+			return ret, nil
+		}
+
 		return nil, err
 	}
 	l := len(nalus)
